@@ -80,7 +80,8 @@ class G:
     # ---------------------------------------------------------------- statements
     def program(self):
         cls = self.ch(QCLS)
-        kind = self.ch(["select", "select", "select", "insert", "insert", "update", "update", "delete", "create", "drop"])
+        kind = self.ch(["select", "select", "select", "insert", "insert", "update", "update", "delete", "create", "drop",
+                        "setop"])
         mode = "main"
         r = self.rng.random()
         if r < 0.1:
@@ -101,6 +102,11 @@ class G:
             entry = {"t": "meth", "x": C, "m": "update", "a": [TA]}
         elif kind == "delete":
             entry = {"t": "meth", "x": {"t": "meth", "x": C, "m": "from_", "a": [TA]}, "m": "delete"}
+        elif kind == "setop":
+            q1 = {"t": "meth", "x": {"t": "meth", "x": C, "m": "from_", "a": [TA]}, "m": "select", "a": [F(TA, "x", alias="k1"), F(TA, "y")]}
+            q2 = {"t": "meth", "x": {"t": "meth", "x": C, "m": "from_", "a": [TB]}, "m": "select", "a": [F(TB, "x"), F(TB, "y")]}
+            ops = ["union", "union_all", "intersect", "except_of"] + (["minus"] if cls in ("OracleQuery", "Query") else [])
+            entry = {"t": "meth", "x": q1, "m": self.ch(ops), "a": [q2]}
         elif kind == "create":
             entry = {"t": "meth", "x": C, "m": "create_table", "a": ["t_new"]}
         else:
@@ -351,6 +357,26 @@ class G:
             kw["default"] = self.ch([0, "d"])
         return {"t": "new", "c": "Column", "a": [n, "INT"], "kw": kw}
 
+    def k_setop(self, cls, mode):
+        A = []
+        if self.p(0.7):
+            A.append({"group": "orderby", "calls": [{"m": "orderby", "a": [self.ch(["x", "y", F(TA, "x"), F(TA, "x", alias="k1")])],
+                                                     **({"kw": {"order": {"t": "enum", "c": "Order", "v": self.ch(["asc", "desc"])}}}
+                                                        if self.p(0.5) else {})}
+                                                    for _ in range(self.rng.randint(1, 2))]})
+        if self.p(0.6):
+            A.append({"group": "limit", "calls": [{"m": "limit", "a": [self.ch([1, 10])]} for _ in range(self.rng.randint(1, 2))]})
+        if self.p(0.5):
+            A.append({"group": "offset", "calls": [{"m": "offset", "a": [self.ch([0, 5])]}]})
+        if self.p(0.5):
+            q3 = {"t": "meth", "x": {"t": "meth", "x": {"t": "cls", "name": cls}, "m": "from_", "a": [TC]}, "m": "select",
+                  "a": [F(TC, "x"), F(TC, "y")]}
+            A.append({"group": "operands", "calls": [{"m": self.ch(["union", "union_all", "intersect"]), "a": [q3]}
+                                                      for _ in range(self.rng.randint(1, 2))]})
+        if self.p(0.3):
+            A.append({"group": "alias", "calls": [{"m": "as_", "a": ["u1"]}]})
+        return A
+
     def k_drop(self, cls, mode):
         return [{"group": "if_exists", "calls": [{"m": "if_exists", "a": []}]}] if self.p(0.7) else []
 
@@ -511,6 +537,8 @@ def order_table(cls, kind):
         return ["WITH", "DELETE"] + sel_tail + ["RETURNING"]
     if kind == "create":
         return ["CREATE", "WITH SYSTEM VERSIONING"]
+    if kind == "setop":
+        return None
     return ["DROP"]
 
 
@@ -583,7 +611,7 @@ def expect_complete(prog, ms):
         return True
     if k == "create":
         return ms["columns"] > 0
-    return True
+    return True  # drop, delete, set operations are complete from their entry point on
 
 
 SQLITE_UNSUPPORTED = {"for_update", "force_index", "use_index", "rollup", "prewhere", "with_totals", "replace",
@@ -621,7 +649,7 @@ def riders(prog, merge, prefixes, L, stats):
             bad.append(("balance", str(e)))
             continue
         stats["lexed"] += 1
-        if prog["mode"] == "main":
+        if prog["mode"] == "main" and table is not None:
             names = [c[0] for c in cl]
             miss = check_order(names, table)
             if miss is not None:
